@@ -301,6 +301,15 @@ theorem applyTail_tframe (n : Norm) (e : Event) : TFrame e (applyTail n e) := by
   refine TFrame.trans ?_ (setBy_tframe _ _ _ hu2 _)
   exact setBy_tframe _ _ _ hu1 _
 
+theorem setHowDefaults_tframe (e : Event) : TFrame e (setHowDefaults e) := by
+  unfold setHowDefaults
+  simp only
+  split
+  · exact TFrame.refl e
+  · split
+    · split <;> exact ⟨rfl, rfl, rfl, rfl, rfl, rfl, rfl⟩
+    · exact ⟨rfl, rfl, rfl, rfl, rfl, rfl, rfl⟩
+
 theorem addProcess_tframe (e : Event) : TFrame e (addProcess e) := ⟨rfl, rfl, rfl, rfl, rfl, rfl, rfl⟩
 
 end LA.Coalesce
